@@ -24,17 +24,6 @@ Definition drop_star_names (s : import_stmt) : list import_stmt :=
 Definition drop_star (pr : project) : project :=
   map_imports (fun m => if m_is_pkg m then flat_map drop_star_names (m_imports m) else m_imports m) pr.
 
-(* class 6 with IncludeThirdParty = false: "from d import x" where d is a directory without __init__.py
-   (a namespace package) is resolved through the third-party branch only *)
-Definition drop_ns_from (pr : project) : project :=
-  map_imports (fun m => filter (fun s => match i_form s with
-                                         | ImportFrom p _ => is_module pr p
-                                         | _ => true
-                                         end) (m_imports m)) pr.
-
-(* class 9: two files with one module name (m.py next to m/__init__.py): the imports of both are attributed to m;
-   the graph is then the specification's graph of [pr_model] itself, where both files are listed *)
-
 (* class 8, the import root lies below pyscn's project root: an absolute import is searched in the importing
    directory, in pyscn's root and in the parent directory, so from a directory two or more levels below the
    import root it is found in none of them *)
@@ -61,9 +50,7 @@ Definition run_project_x (dag : bool) (o : opts) (prefix : path) (pr_model pr_sp
   let alt (pr' : project) := prefix_edges prefix (edges_py_o o pr') in
   (spec, g_edges g, same_edges (g_edges g) (g_edges g'), deviation_classes pr_spec,
    (if class_wildcard_reexport pr_model then [(5%N, alt (drop_star pr_model))] else []) ++
-   (if class_namespace_package pr_spec && negb (o_third o) then [(6%N, alt (drop_ns_from pr_spec))] else []) ++
-   (match prefix with [] => [] | _ => [(8%N, alt (drop_deep_abs pr_spec))] end) ++
-   (if nodup_paths (module_names pr_model) then [] else [(9%N, alt pr_model)]),
+   (match prefix with [] => [] | _ => [(8%N, alt (drop_deep_abs pr_spec))] end),
    map (fun m => (m_path m, module_metrics g (m_path m))) prm,
    (calculateMaxDepth (g_nodes g) (g_edges g), if dag then longest_chain (g_nodes g) (g_edges g) else 0%nat)).
 
